@@ -11,6 +11,7 @@ import RedisVerif.Props.C11
     MSAVE                                         → ok         (ManifestManager::save)
     SEG <id> <n> (<key> <rv>)*                    → ok         (segment object)
     DELSEG <id>                                   → ok
+    TORNSEG <id>                                  → ok         (truncated segment object)
     CHK <name> <last> <n> (<key> <rv>)*           → ok         (checkpoint object)
     WAL <n> (<ts> <key> <rv>)*                    → ok         (recover_all_entries, in order)
     REC                                           → ok chk=<-|n> (<key> <rv> ;)* deltas <n> (<key> <rv> ;)* fold <n> (<key> <rv> ;)*
@@ -104,6 +105,10 @@ def step (s : St) (line : String) : St × String :=
   | ["DELSEG", a] =>
     match a.toNat? with
     | some id => ({ s with store := NMap.erase (segName id) s.store }, "ok")
+    | none => (s, "bad-op")
+  | ["TORNSEG", a] =>
+    match a.toNat? with
+    | some id => ({ s with store := NMap.insert (segName id) .torn s.store }, "ok")
     | none => (s, "bad-op")
   | ["REC"] => (s, showRec (recover s.store s.rid))
   | ["RECWAL"] => (s, showRec (recoverWithWal s.store s.rid s.wal))
